@@ -244,6 +244,17 @@ pub fn h_c12_clone_with_prefixes() {
     let e2 = xot.new_element(n2);
     xot.append(e0, e1).unwrap();
     xot.append(e1, e2).unwrap();
+    // optionally an earlier sibling of e2 that is in namespace A / B and declares it itself (under its own
+    // prefix): that namespace is resolved inside the sibling only, e2 may still need the inherited binding
+    let fork = sym::choose("fork", 3);
+    if fork > 0 {
+        let ns3 = if fork == 1 { i.a } else { i.b };
+        let n3 = xot.add_name_ns("g", ns3);
+        let e3 = xot.new_element(n3);
+        let z = xot.add_prefix("z");
+        xot.set_namespace(e3, z, ns3);
+        xot.prepend(e1, e3).unwrap();
+    }
     for (p, ns) in config(&i, c0) {
         xot.set_namespace(e0, p, ns);
     }
